@@ -446,7 +446,7 @@ def _q_post(ctx):
         aa = aa if z3.is_expr(aa) else z3.BoolVal(bool(aa))
         passes = z3.Or(aa, u <= pacc)
         out.append(("energy_rule_rejects_exactly_when_u_exceeds_min_1_exp", (st_t == S("QEA")) == z3.Not(passes)))
-        out.append(("accepted_only_if_energy_rule_passes", z3.Implies(accv, passes)))
+        # (ACC => the rule passed follows from this clause and accept_iff_status_ACC; not stated separately)
     return out
 
 
